@@ -178,3 +178,43 @@ type MG struct {
 	S string `gorm:"primaryKey"`
 	Base
 }
+
+// ---------------- family R: composite (string, int64) key - the LAST part can be a numeric zero ----------------
+type RP struct {
+	S string `gorm:"primaryKey"`
+	N int64  `gorm:"primaryKey;autoIncrement:false"`
+	Base
+	TS     *string
+	TN     *int64
+	BS     *string
+	BN     *int64
+	Target *RT  `gorm:"foreignKey:TS,TN;references:S,N"`
+	One    *RO  `gorm:"foreignKey:PS,PN;references:S,N"`
+	Many   []RM `gorm:"foreignKey:PS,PN;references:S,N"`
+	Tags   []RG `gorm:"many2many:rp_tags;foreignKey:S,N;joinForeignKey:OwnerS,OwnerN;references:S,N;joinReferences:TagS,TagN"`
+	Boss   *RP  `gorm:"foreignKey:BS,BN;references:S,N"`
+	Team   []RP `gorm:"foreignKey:BS,BN;references:S,N"`
+}
+type RO struct {
+	ID int64 `gorm:"primaryKey"`
+	Base
+	PS *string
+	PN *int64
+}
+type RM struct {
+	ID int64 `gorm:"primaryKey"`
+	Base
+	PS    *string
+	PN    *int64
+	Owner *RP `gorm:"foreignKey:PS,PN;references:S,N"`
+}
+type RT struct {
+	S string `gorm:"primaryKey"`
+	N int64  `gorm:"primaryKey;autoIncrement:false"`
+	Base
+}
+type RG struct {
+	S string `gorm:"primaryKey"`
+	N int64  `gorm:"primaryKey;autoIncrement:false"`
+	Base
+}
